@@ -2,7 +2,7 @@
 import json
 import os
 
-from . import build, p21, sess
+from . import build, p21, seps, sess
 from .common import VERIF
 
 SCHEMA = os.path.join(VERIF, "schemas", "lazy.exp")
@@ -14,39 +14,80 @@ def driver(cfg="plain"):
     return build.link_driver("lazy_drv", [DRV], cfg=cfg, schema=s)
 
 
-def r(seq, k=0):
-    return "#%d" % seq[k] if len(seq) > k else "$"
+STR = {"plain": "'x'", "hashparen": "'a#9(;'", "quotes": "'it''s #1'", "unset": "$",
+       # the control directive \\S\\' is a single character: its apostrophe does not end the string
+       "directive2": "'p\\S\\'#%d q\\S\\'r'", "directive1": "'sect \\S\\' #%d;'"}
 
 
-def inst_text(x, variant=0):
+def tokens(x, strform="plain"):
+    """the token sequence of one instance (Part 21 tokens; the layout decides what stands between them)"""
     t, i, a, b = x["ty"], x["id"], x["a"], x["b"]
+    ref = lambda seq: ["#%d" % seq[0]] if seq else ["$"]
+
+    def lst(seq):
+        out = ["("]
+        for k, v in enumerate(seq):
+            out += ([","] if k else []) + ["#%d" % v]
+        return out + [")"]
     if t == "pnode":
-        return "PNODE(%d,%s)" % (i, r(a))
-    if t == "pholder":
-        # strings that look like data to a careless scanner: '#', '(' ';', doubled quotes, and the control directive
-        # \S\' (a single character - the apostrophe does not end the string), once and twice
-        s = ["'x'", "'a#9(;'", "'it''s #1'", "$", "'p\\S\\'#%d q\\S\\'r'" % (a[0] if a else 1), "'sect \\S\\' #%d;'" % (a[0] if a else 1)][variant % 6]
-        return "PHOLDER((%s),%s,%s)" % (",".join("#%d" % k for k in a), r(b), s)
-    if t == "cx":
-        return "(PBASE(%d)PPA(%s)PPB(%s))" % (i, r(a), r(b))
-    if t in ("inode", "isubnode", "ione", "itwo"):
-        return "%s(%d)" % (t.upper(), i)
-    if t in ("iholder", "isub"):
-        return "%s((%s),%s)" % (t.upper(), ",".join("#%d" % k for k in a), r(b))
-    if t in ("ilink", "ipair"):
-        return "%s(%s,%s)" % (t.upper(), r(a), r(b))
-    raise ValueError(t)
+        body = ["PNODE", "(", str(i), ","] + ref(a) + [")"]
+    elif t == "pholder":
+        sv = STR[strform]
+        if "%d" in sv:
+            sv = sv % (a[0] if a else 1)
+        body = ["PHOLDER", "("] + lst(a) + [","] + ref(b) + [",", sv, ")"]
+    elif t == "cx":
+        body = ["(", "PBASE", "(", str(i), ")", "PPA", "("] + ref(a) + [")", "PPB", "("] + ref(b) + [")", ")"]
+    elif t in ("inode", "isubnode", "isubsub", "ione", "itwo"):
+        body = [t.upper(), "(", str(i), ")"]
+    elif t in ("iholder", "isub"):
+        body = [t.upper(), "("] + lst(a) + [","] + ref(b) + [")"]
+    elif t in ("ilink", "ipair"):
+        body = [t.upper(), "("] + ref(a) + [","] + ref(b) + [")"]
+    else:
+        raise ValueError(t)
+    return ["#%d" % x["id"], "="] + body + [";"]
 
 
-def file_text(P, variant=0):
+def join(toks, lay, sp=None):
+    """one instance in layout lay (a member of Lazy!Layouts); sp hands out comment separators (P21Sep)"""
+    out = []
+    sp = sp or (lambda: "/* c */")
+    for k, t in enumerate(toks):
+        out.append(t)
+        nxt = toks[k + 1] if k + 1 < len(toks) else None
+        if nxt is None:
+            break
+        kw = t[0].isalpha()
+        if lay == "spaced":
+            out.append(" ")
+        elif lay == "commentAfterEq" and t == "=":
+            out.append(sp())
+        elif lay == "inlineComment" and t in (",", "("):
+            out.append(sp())
+        elif lay in ("kwNl", "kwTab", "kwSp") and (t == "=" or kw):
+            out.append({"kwNl": "\n", "kwTab": "\t", "kwSp": " "}[lay])
+        elif lay == "multiline" and t == ",":
+            out.append("\n  ")
+        elif lay == "refSpace" and (t in ("(", ",") or nxt in (")", ",")):
+            out.append(" ")
+    return "".join(out)
+
+
+def file_text(P, lay="compact", strform="plain"):
     head = "ISO-10303-21;\n" + p21.HEADER % "LAZY" + "DATA;\n"
     body = []
+    sp = seps.Spacer("comments", sum(x["id"] * (k + 1) + 3 * len(x["a"]) + 5 * len(x["b"]) for k, x in enumerate(P)))
+    if lay == "commentFirst":
+        body.append(sp() + "\n")
     for k, x in enumerate(P):
-        if variant % 3 == 1 and k == 1:
-            body.append("/* #%d=PNODE(9,#%d); ( ' */\n" % (P[0]["id"], P[0]["id"]))
-        sep = " " if variant % 2 else ""
-        body.append("#%d%s=%s%s;\n" % (x["id"], sep, sep, inst_text(x, variant + k)))
-    return head + "".join(body) + "ENDSEC;\nEND-ISO-10303-21;\n"
+        if k == 1 and lay in ("comment1", "comment2"):
+            body.append("/* #%d=PNODE(9,#%d); ( ' */" % (P[0]["id"], P[0]["id"]) + (sp() + sp() + "\n" if lay == "comment2" else "\n"))
+        body.append(join(tokens(x, strform), lay, sp) + {"oneLine": "", "blank": "\n\n\n"}.get(lay, "\n"))
+    if lay == "commentEnd":
+        body.append(sp() + "\n")
+    txt = head + "".join(body) + "ENDSEC;\nEND-ISO-10303-21;\n"
+    return txt.replace("\n", "\r\n") if lay == "crlf" else txt
 
 
 def script(path, P, order):
